@@ -22,7 +22,7 @@ def plan(tier, seed):
         c["overrides"] = {"script_params": SCRIPT}
     # live-exchange double: response timings against order-stream updates (BetfairOrder) ...
     n = 1500 if tier == "quick" else 40000
-    cases += [{"mode": "live_walk", "seed": seed, "idx": i, "cfg": {"n": 1 + i % 3, "async": i % 4 == 3, "hc": i % 7 == 3, "ext": i % 2 == 1, "sp": (i // 2) % 4 if i % 6 == 5 else 0}, "len": 9 + i % 6} for i in range(n)]
+    cases += [{"mode": "live_walk", "seed": seed, "idx": i, "cfg": {"n": 1 + i % 3, "async": i % 4 == 3, "hc": i % 7 == 3, "ext": i % 2 == 1, "sp": (i // 2) % 4 if i % 6 == 5 else 0, "lose_reply": ("all" if i % 16 == 3 else True) if i % 8 == 3 else False}, "len": 9 + i % 6, "prefix": ([["place", 0], ["resp", 0], ["resp", 0], ["resp", 0], ["resp", 0], ["snap"]] if i % 16 == 3 else None)} for i in range(n)]
     cases += [{"mode": "betdaq_walk", "seed": seed, "idx": i, "len": 12 + i % 10} for i in range(n // 2)]
     # ... and every fault plan of the C12 enumeration (failure / timeout / lost-then-retried replies)
     from . import c12
